@@ -733,6 +733,16 @@ func (e *SpecEnv) evalCall(n ECall) Val {
 		case KRef:
 			return Val{T: fmt.Sprintf("(> %s %s)", p.T, e.old.alloc), S: sBool}
 		}
+	case "deref":
+		// deref(p): the value a (non-struct) pointer refers to, in the state the expression is evaluated in
+		p := arg(0)
+		if p.G != nil {
+			if pt, ok := p.G.Underlying().(*types.Pointer); ok {
+				return g.loadPtr(p, pt.Elem(), nil, e.st)
+			}
+		}
+		g.errorf("spec: deref of a non-pointer: %s", n.String())
+		return Val{T: "0", S: sInt}
 	case "isnil":
 		p := arg(0)
 		return Val{T: sEq(p.T, g.nilOf(p).T), S: sBool}
